@@ -70,7 +70,11 @@ def _generic_mro(result, tp):
         origin = tp
     result[origin] = tp
     if hasattr(origin, "__orig_bases__"):
-        parameters = _collect_type_parameters(origin.__orig_bases__)
+        # the order of the parameters of the class is not always the order of their first
+        # appearance in its bases, e.g. `class A(Base[T], Generic[U, T])`
+        parameters = getattr(
+            origin, "__parameters__", None
+        ) or _collect_type_parameters(origin.__orig_bases__)
         substitution = dict(zip(parameters, get_args(tp)))
         for base in origin.__orig_bases__:
             if get_origin(base) in result:
